@@ -74,7 +74,8 @@ func (q *queue) len() uint64 {
 func (q *queue) push(ctx context.Context) (EvictFunc, <-chan core.Listener) {
 	q.mu.Lock()
 	defer q.mu.Unlock()
-	releaseChan := make(chan core.Listener)
+	// buffered so that a hand-off succeeds even if the waiter has not reached its select yet
+	releaseChan := make(chan core.Listener, 1)
 
 	e := &queueElement{ctx: ctx, releaseChan: releaseChan}
 
@@ -280,8 +281,18 @@ func (l *QueueBlockingLimiter) tryAcquire(ctx context.Context) core.Listener {
 		return listener
 	}
 
+	// Retry and enqueue under the lock that unblock holds, so that a release cannot slip in
+	// between the failed attempt and the push and find the backlog empty.
+	l.mu.Lock()
+	listener, ok = l.delegate.Acquire(ctx)
+	if ok && listener != nil {
+		l.mu.Unlock()
+		return listener
+	}
+
 	// Restrict backlog size so the queue doesn't grow unbounded during an outage
 	if l.backlog.len() >= l.maxBacklogSize {
+		l.mu.Unlock()
 		return nil
 	}
 
@@ -289,6 +300,7 @@ func (l *QueueBlockingLimiter) tryAcquire(ctx context.Context) core.Listener {
 	// operation.  Holders will be unblocked in LIFO or FIFO order depending on whatever
 	// ordering was configured when backlog was instantiated
 	evict, eventReleaseChan := l.backlog.push(ctx)
+	l.mu.Unlock()
 
 	// We're using a nil chan so that we
 	// can avoid needing to duplicate the
@@ -317,13 +329,26 @@ func (l *QueueBlockingLimiter) tryAcquire(ctx context.Context) core.Listener {
 		return listener
 	case <-backlogTimeout:
 		// Remove the holder from the backlog.
-		evict()
-		return nil
+		return l.giveUp(evict, eventReleaseChan)
 	case <-ctxDone:
 		// The context has been cancelled before `maxBacklogTimeout`
 		// could elapse. Since this context no longer needs a listener
 		// we evict it from the backlog to free up space.
-		evict()
+		return l.giveUp(evict, eventReleaseChan)
+	}
+}
+
+// giveUp removes the holder from the backlog. It is serialised with unblock: either the
+// hand-off already happened, in which case the listener is waiting in the channel and is
+// returned to the caller, or the holder is gone before unblock can pick it.
+func (l *QueueBlockingLimiter) giveUp(evict EvictFunc, releaseChan <-chan core.Listener) core.Listener {
+	l.mu.Lock()
+	defer l.mu.Unlock()
+	evict()
+	select {
+	case listener := <-releaseChan:
+		return listener
+	default:
 		return nil
 	}
 }
